@@ -94,13 +94,18 @@ def remainingOf (cfg : Cfg) (s : St) (size : Option Nat) : Option Nat :=
     | some n => if n ≠ 0 ∧ n < r then some n else some r
     | none => some r
 
+/-- `chunksize = min(remaining, self.bufsize)` -/
+def chunkOf (cfg : Cfg) (rem : Option Nat) : Nat :=
+  match rem with
+  | none => cfg.bufsize
+  | some r => min r cfg.bufsize
+
 /-- `while remaining > 0:` … of `read`. -/
 def readLoop (cfg : Cfg) : Nat → St → Option Nat → Bytes → Res Bytes × St
   | 0, s, _, _ => (.fuel, s)
   | fuel + 1, s, rem, acc =>
     if rem = some 0 then (.ok acc, s) else
-    let chunk := match rem with | none => cfg.bufsize | some r => min r cfg.bufsize
-    match fpRead s chunk with
+    match fpRead s (chunkOf cfg rem) with
     | (none, s1) => (.err413, s1)
     | (some data, s1) =>
       if data.isEmpty then (.ok acc, finish s1) else
@@ -108,15 +113,26 @@ def readLoop (cfg : Cfg) : Nat → St → Option Nat → Bytes → Res Bytes × 
       if over cfg s2.bytesRead then (.err413, s2)
       else readLoop cfg fuel s2 (rem.map (· - data.length)) (acc ++ data)
 
+/-- `data = self.buffer` (remaining is inf) or `self.buffer[:remaining]` -/
+def bufTake (rem : Option Nat) (buf : Bytes) : Bytes :=
+  match rem with
+  | none => buf
+  | some r => buf.take r
+
+/-- `self.buffer = b''` or `self.buffer[remaining:]` -/
+def bufDrop (rem : Option Nat) (buf : Bytes) : Bytes :=
+  match rem with
+  | none => []
+  | some r => buf.drop r
+
 def read (cfg : Cfg) (s : St) (size : Option Nat) : Res Bytes × St :=
   let rem := remainingOf cfg s size
   if rem = some 0 then (.ok [], finish s) else
   if s.buffer.isEmpty then
     readLoop cfg (s.src.length + 1) s rem []
   else
-    let data := match rem with | none => s.buffer | some r => s.buffer.take r
-    let buf' := match rem with | none => [] | some r => s.buffer.drop r
-    let s1 := { s with buffer := buf', bytesRead := s.bytesRead + data.length }
+    let data := bufTake rem s.buffer
+    let s1 := { s with buffer := bufDrop rem s.buffer, bytesRead := s.bytesRead + data.length }
     if over cfg s1.bytesRead then (.err413, s1)
     else readLoop cfg (s.src.length + 1) s1 (rem.map (· - data.length)) data
 
